@@ -47,6 +47,8 @@ func checkC09(r *Report, p *Program) {
 	r09_recordSet(r, p, "R09.13")
 	claimKeepTable(r, p, "R09.14")
 	claimsTables(r, p, "R09.17")
+	copyIfFound(r, p, "R09.18")
+	anyRollingTable(r, p, "R09.19")
 	revisionLabelsAgree(r, p, "R09.15")
 	// building a revision (its name is cut to length) cannot panic the worker
 	constantSlicesBounded(r, p, "R09.16", 1)
